@@ -66,23 +66,31 @@ int main(int argc, char **argv)
 			}
 		v_eval_n(65536);
 		v_count("triples_checked", 65536);
-		/* (4) 32-byte table expansion */
-		uint8_t tbl[32 + 64];
-		memset(tbl, 0xEE, sizeof tbl);
-		gf_vect_mul_init(a, tbl + 32);
-		v_eval();
-		for (int i = 0; i < 16; i++) {
-			if (tbl[32 + i] != rgf_mul_slow(a, i) || tbl[32 + 16 + i] != rgf_mul_slow(a, i << 4)) {
-				snprintf(key, sizeof key, "gf_vect_mul_init c=%02x", a);
-				v_violation(key, "entry %d: lo %02x (exp %02x) hi %02x (exp %02x)", i, tbl[32 + i], rgf_mul_slow(a, i),
-					    tbl[48 + i], rgf_mul_slow(a, i << 4));
+		/* (4) 32-byte table expansion, at every alignment of the table address (the API states no alignment requirement and the
+		 * kernels load tables with unaligned loads) */
+		_Alignas(64) uint8_t tblbuf[64 + 32 + 64 + 16];
+		uint8_t *tbl = tblbuf + 32; /* tbl + 32 is the table of the aligned case used for the product check below */
+		for (int off = 15; off >= 0; off--) {
+			memset(tblbuf, 0xEE, sizeof tblbuf);
+			uint8_t *tt = tblbuf + 64 + off;
+			gf_vect_mul_init(a, tt);
+			v_eval();
+			for (int i = 0; i < 16; i++) {
+				if (tt[i] != rgf_mul_slow(a, i) || tt[16 + i] != rgf_mul_slow(a, i << 4)) {
+					snprintf(key, sizeof key, "gf_vect_mul_init c=%02x table-address%%16=%d", a, off);
+					v_violation(key, "entry %d: lo %02x (exp %02x) hi %02x (exp %02x)", i, tt[i], rgf_mul_slow(a, i),
+						    tt[16 + i], rgf_mul_slow(a, i << 4));
+					break;
+				}
 			}
+			for (int i = 0; i < 32; i++)
+				if (tt[-1 - i] != 0xEE || tt[32 + i] != 0xEE) {
+					snprintf(key, sizeof key, "gf_vect_mul_init c=%02x writes outside 32 bytes (table-address%%16=%d)", a, off);
+					v_violation(key, "neighbour byte changed");
+					break;
+				}
 		}
-		for (int i = 0; i < 32; i++)
-			if (tbl[i] != 0xEE || tbl[64 + i] != 0xEE) {
-				snprintf(key, sizeof key, "gf_vect_mul_init c=%02x writes outside 32 bytes", a);
-				v_violation(key, "neighbour byte changed");
-			}
+		tbl = tblbuf + 64 - 32; /* last iteration was off = 0: the table sits at tblbuf + 64 == tbl + 32 */
 		/* table-driven product equals field product for every byte */
 		for (int x = 0; x < 256; x++) {
 			uint8_t p = tbl[32 + (x & 15)] ^ tbl[48 + (x >> 4)];
@@ -106,6 +114,34 @@ int main(int argc, char **argv)
 		int k = grid[g][0], rows = grid[g][1];
 		size_t n = (size_t)k * rows;
 		uint8_t *a = malloc(n), *t = g_alloc(n * 32, G_END), *t8 = g_alloc(n * 8, G_END);
+		/* the same grid with the table block at odd addresses (ec_init_tables_base and the dispatched builder) */
+		if (n <= 4096)
+			for (int off = 1; off < 16; off += 2) {
+				uint8_t *tu = g_alloc_off(n * 32, off);
+				for (size_t i = 0; i < n; i++)
+					a[i] = (uint8_t)(i * 7 + g * 13 + (i >> 8));
+				for (int which = 0; which < 2; which++) {
+					memset(tu, 0xEE, n * 32);
+					cpu_set_level(CPU_AVX2);
+					if (which)
+						ec_init_tables(k, rows, a, tu);
+					else
+						ec_init_tables_base(k, rows, a, tu);
+					v_eval();
+					for (size_t i = 0; i < n; i++)
+						for (int x = 0; x < 32; x++) {
+							uint8_t e = x < 16 ? rgf_mul_slow(a[i], x) : rgf_mul_slow(a[i], (x - 16) << 4);
+							if (tu[32 * i + x] != e) {
+								snprintf(key, sizeof key, "ec_init_tables%s c=%02x table-address%%16=%d", which ? "@avx2" : "_base", a[i], off);
+								v_violation(key, "k=%d rows=%d index %zu entry %d = %02x expected %02x", k, rows, i, x, tu[32 * i + x], e);
+								i = n - 1;
+								break;
+							}
+						}
+				}
+				if (g_check())
+					v_violation("ec_init_tables overrun (unaligned table)", "%s k=%d rows=%d", g_last_damage(), k, rows);
+			}
 		for (size_t i = 0; i < n; i++)
 			a[i] = (uint8_t)(i * 7 + g * 13 + (i >> 8));
 		for (int lvl = -1; lvl < CPU_NLEVELS; lvl++) {
